@@ -68,19 +68,27 @@ def selectShort (s : Instr) : Instr :=
   let s := if (rowAt (s.key + 1)).enc == c_S && s.kw.isShort then { s with key := s.key + 1 } else s
   { s with hex := { s.hex with reg := 0, rex := 0, sib := c_NO_BYTE } }
 
+/-- push with an immediate above 0x7f uses the imm32 row (src/parser.c:129) -/
+def pushAdjust (s : Instr) : Instr :=
+  if nameIs s.key c_push && s.cons > c_MAX_SIGNED_8BIT then { s with key := s.key + 1 } else s
+
+/-- force a (negative) branch displacement to 32 bits (src/parser.c:114) -/
+def branch32 (s : Instr) : Instr :=
+  if typeIs s.key c_CONTROL_FLOW && inR s.cons (c_NEG32BIT + 1) c_NEG64BIT
+  then { s with cons := s.cons &&& c_MAX_UNSIGNED_32BIT } else s
+
+/-- encode only when the first operand has a register or index (src/parser.c:117) -/
+def encodeIfRegs (s : Instr) : R Instr :=
+  if s.opd0.reg != c_reg_none || s.opd0.index != c_reg_none then
+    encodeOperands (encodeImm (encodeOffset s))
+  else .ok s
+
 /-- register check, 32-bit branch displacement, encoding, push imm8/imm32 selection -/
 def resolveRest (s : Instr) : R Instr :=
   if checkRegistersFail s then .error .fail else
-  let s := if typeIs s.key c_CONTROL_FLOW && inR s.cons (c_NEG32BIT + 1) c_NEG64BIT
-           then { s with cons := s.cons &&& c_MAX_UNSIGNED_32BIT } else s
-  let r : R Instr :=
-    if s.opd0.reg != c_reg_none || s.opd0.index != c_reg_none then
-      encodeOperands (encodeImm (encodeOffset s))
-    else .ok s
-  match r with
+  match encodeIfRegs (branch32 s) with
   | .error e => .error e
-  | .ok s =>
-    .ok (if nameIs s.key c_push && s.cons > c_MAX_SIGNED_8BIT then { s with key := s.key + 1 } else s)
+  | .ok s => .ok (pushAdjust s)
 
 /-- the rest of `line_to_instr`: branch width, register check, encoding. -/
 def resolveLine (s : Instr) : R Instr :=
